@@ -238,8 +238,8 @@ fn h1_box(prop: &str, thorough: bool) -> Vec<(Body, usize)> {
                         // the 2-worker searches with preemptions keep their full bound only for the core
                         // variants; the remaining variants are explored with a smaller bound (quick: 0,
                         // thorough: 1)
-                        let costly = t >= 2 && bound >= 1;
-                        let low = if !costly { bound } else if thorough { 1 } else { 0 };
+                        let costly = (t >= 2 && bound >= 1) || bound >= 3;
+                        let low = if !costly { bound } else if t >= 2 { if thorough { 1 } else { 0 } } else { 2 };
                         for k in 0..=s + 1 {
                             push(H1 { consumer: Consumer::StopAfter(k), ..base.clone() }, if k == 1 { bound } else { low });
                         }
@@ -252,7 +252,7 @@ fn h1_box(prop: &str, thorough: bool) -> Vec<(Body, usize)> {
                         }
                         if s <= 2 {
                             for cons in [Consumer::Drain, Consumer::StopAfter(0), Consumer::StopAfter(1)] {
-                                let b = if cons == Consumer::Drain { bound.min(if thorough && costly { 1 } else { bound }) } else { low };
+                                let b = if cons == Consumer::Drain && !costly { bound } else { low };
                                 push(H1 { reader_init_fails: true, consumer: cons, ..base.clone() }, b);
                                 for j in 0..=q {
                                     push(H1 { dataset_init_fail_at: Some(j), consumer: cons, ..base.clone() }, b);
@@ -261,9 +261,9 @@ fn h1_box(prop: &str, thorough: bool) -> Vec<(Body, usize)> {
                         }
                     }
                     "C15" => {
-                        let costly = t >= 2 && bound >= 2;
+                        let costly = (t >= 2 && bound >= 2) || bound >= 3;
                         for e in 0..=s {
-                            let b = if costly && e != 1 { 1 } else { bound };
+                            let b = if costly && e != 1 { if t >= 2 { 1 } else { 2 } } else { bound };
                             push(H1 { err_at: Some(e), ..base.clone() }, b);
                             push(H1 { err_at: Some(e), consumer: Consumer::StopAtError, ..base.clone() }, b);
                             // a consumer that has already left when the reader fails: the call still
@@ -273,7 +273,7 @@ fn h1_box(prop: &str, thorough: bool) -> Vec<(Body, usize)> {
                             push(H1 { err_at: Some(e), consumer: Consumer::StopAfter(1), ..base.clone() }, low);
                         }
                         if s <= 2 {
-                            let b = if costly { 1 } else { bound };
+                            let b = if costly { if t >= 2 { 1 } else { 2 } } else { bound };
                             push(H1 { reader_init_fails: true, ..base.clone() }, b);
                             push(H1 { reader_init_fails: true, consumer: Consumer::StopAfter(0), ..base.clone() }, b);
                             for j in 0..=q {
